@@ -207,7 +207,7 @@ static iwrc lock_tap(bool before, void *op);
 static struct iwkv_opts mkopts(int crc, int fresh) {
   struct iwkv_opts o = {
     .path = g_dbpath,
-    .oflags = fresh ? IWKV_TRUNC : 0,
+    .oflags = (fresh ? IWKV_TRUNC : 0) | ((crc & 4) ? IWKV_NO_TRIM_ON_CLOSE : 0),   // crc: 1 checksums, 2 small buffer, 4 no trim
     .random_seed = 1,
     .wal = {
       .enabled = true,
